@@ -16,7 +16,8 @@ import GuppyVerif.Model.Dataflow
       `live_default`, `LivenessAnalysis(scope.stats(), initial=live_default,
       include_unreachable=False)` (the worklist of `Model/Dataflow.lean`), then per block the
       "used but live in a successor" check and the "unused, not droppable, not live in all
-      successors" check with the `x ∉ live_before_bb ∧ x ∉ scope.vars` skip.
+      successors" check (over the local places and the parent places the block does not
+      reassign) with the `x ∉ live_before_bb ∧ x ∉ scope.vars` skip.
 
     Python exceptions that are not user errors (assertion / KeyError on a place that is in no
     scope) are the result `crash`.  Import-free apart from the C09 dataflow model. -/
@@ -90,7 +91,7 @@ inductive Err where
   | usedThenLive (borrowedLeaf : Bool)  -- pass 2: AlreadyUsedError, or BorrowSubPlaceUsedError when
                                         -- the recorded later use is the implicit return of a borrowed leaf
   | crash                 -- AssertionError / KeyError: a place that is in no scope
-  | fuel                  -- the liveness worklist did not finish within the model's fuel
+  | fuel                  -- the liveness worklist did not finish within the model's fuel (impossible: C06Term)
   deriving Repr, DecidableEq, Inhabited
 
 abbrev R := Except Err
@@ -249,16 +250,20 @@ def checkOutRows (P : Prog) (live : Blk → List Leaf) (b : Blk) (s : Scope) : R
     refined signature (which can only fail internally) -/
 def checkEdges (P : Prog) (live : Blk → List Leaf) (b : Blk) (s : Scope) : R Unit := do
   (P.succ b).forM fun c => (live c).forM (checkLiveUsed P s)
-  (s.vars ++ s.parent).forM (checkLeak P live b s)
+  -- the local places, then the places of the parent scope that this block does not reassign
+  (s.vars ++ s.parent.filter fun x => !s.vars.contains x).forM (checkLeak P live b s)
   checkInRow P live b s
   checkOutRows P live b s
 
 /-- `live_default`: the borrowed leaves when the exit block is unreachable, else nothing -/
 def liveDefault (P : Prog) : List Leaf := if P.exitReachable then [] else P.borrowedLeaves
 
-def liveFuel (P : Prog) (tbl : List (Blk × Scope)) : Nat :=
-  let nb := P.blocks.length + 1
-  let nl := (tbl.map fun p => p.2.vars.length + p.2.usedParent.length).sum + P.borrowedLeaves.length + 1
+/-- fuel for the worklist: `(|blocks|+1)² · (|init| + Σ|used b| + 1) + |blocks| + 1` pops always
+    suffice (`Lemmas/C06Term.lean`: every (block, variable) bit changes at most once, every change
+    re-queues at most `|blocks|` predecessors) -/
+def liveFuel (g : Dataflow.Cfg) (init : List Leaf) : Nat :=
+  let nb := g.blocks.length + 1
+  let nl := (g.blocks.map fun b => (g.used b).length).sum + init.length + 1
   nb * nb * nl + nb
 
 /-- the scheduler used by the executable model: pop the head of the list-queue (any choice
@@ -270,7 +275,7 @@ def checkCfg (P : Prog) : R Unit := do
   let tbl ← scopes P
   let sc := lookup tbl
   let g := flowCfg P sc
-  match Dataflow.liveRun g headSched (liveFuel P tbl) (Dataflow.liveInit g (liveDefault P)) with
+  match Dataflow.liveRun g headSched (liveFuel g (liveDefault P)) (Dataflow.liveInit g (liveDefault P)) with
   | none => .error .fuel
   | some t => tbl.forM fun (b, s) => checkEdges P t.vals b s
 
@@ -281,7 +286,7 @@ def liveOf (P : Prog) : Option (List (Blk × List Leaf)) :=
   | .error _ => none
   | .ok tbl =>
     let g := flowCfg P (lookup tbl)
-    match Dataflow.liveRun g headSched (liveFuel P tbl) (Dataflow.liveInit g (liveDefault P)) with
+    match Dataflow.liveRun g headSched (liveFuel g (liveDefault P)) (Dataflow.liveInit g (liveDefault P)) with
     | none => none
     | some t => some (P.blocks.map fun b => (b, t.vals b))
 
